@@ -161,7 +161,7 @@ func (e *compatibilityEngine) NewInstantQuery(q storage.Queryable, opts *promql.
 	lplan := logicalplan.New(expr, ts, ts)
 	lplan = lplan.Optimize(e.logicalOptimizers)
 
-	exec, err := execution.New(lplan.Expr(), q, ts, ts, 0, e.lookbackDelta)
+	exec, err := execution.New(lplan.Expr(), q, ts, ts, 0, e.getLookbackDelta(opts))
 	if e.triggerFallback(err) {
 		e.queries.WithLabelValues("true").Inc()
 		return e.prom.NewInstantQuery(q, opts, qs, ts)
@@ -198,7 +198,7 @@ func (e *compatibilityEngine) NewRangeQuery(q storage.Queryable, opts *promql.Qu
 	lplan := logicalplan.New(expr, start, end)
 	lplan = lplan.Optimize(e.logicalOptimizers)
 
-	exec, err := execution.New(lplan.Expr(), q, start, end, step, e.lookbackDelta)
+	exec, err := execution.New(lplan.Expr(), q, start, end, step, e.getLookbackDelta(opts))
 	if e.triggerFallback(err) {
 		e.queries.WithLabelValues("true").Inc()
 		return e.prom.NewRangeQuery(q, opts, qs, start, end, step)
@@ -218,6 +218,15 @@ func (e *compatibilityEngine) NewRangeQuery(q storage.Queryable, opts *promql.Qu
 		expr:   expr,
 		t:      RangeQuery,
 	}, nil
+}
+
+// getLookbackDelta returns the lookback delta of a query: the one given in its
+// options if any, like the Prometheus engine, and the engine's otherwise.
+func (e *compatibilityEngine) getLookbackDelta(opts *promql.QueryOpts) time.Duration {
+	if opts != nil && opts.LookbackDelta > 0 {
+		return opts.LookbackDelta
+	}
+	return e.lookbackDelta
 }
 
 type Query struct {
